@@ -58,6 +58,9 @@ pub assume_specification[ u8::is_ascii_whitespace ](b: &u8) -> (r: bool)
     ensures r == (*b == 0x20 || *b == 0x09 || *b == 0x0a || *b == 0x0c || *b == 0x0d);
 
 // ---- VecDeque / slices used by the replay queue ----
+/// std: "the total number of elements the vector can hold without reallocating": at least its length, nothing more is promised
+pub assume_specification<T, A: core::alloc::Allocator>[ Vec::<T, A>::capacity ](v: &Vec<T, A>) -> (r: usize)
+    ensures r >= v@.len();
 pub assume_specification<T, A: core::alloc::Allocator>[ std::collections::VecDeque::<T, A>::is_empty ](d: &std::collections::VecDeque<T, A>) -> (r: bool)
     ensures r == (d@.len() == 0);
 pub assume_specification<T, A: core::alloc::Allocator>[ std::collections::VecDeque::<T, A>::front ](d: &std::collections::VecDeque<T, A>) -> (r: Option<&T>)
